@@ -77,11 +77,13 @@ def run_bfs_configs(ctx, configs):
     small = [c for c in configs if not c[2].get("_big")]
     for b, label, opts in big:
         o = {k: v for k, v in opts.items() if not k.startswith("_")}
+        o.setdefault("owntag", ctx.id)
         ctx.run_jobs([bfs_job(b, label, o, 16)], parallel=1)
     if small:
         jobs = []
         for b, label, opts in small:
             o = {k: v for k, v in opts.items() if not k.startswith("_")}
+            o.setdefault("owntag", ctx.id)
             jobs.append(bfs_job(b, label, o, 4))
         ctx.run_jobs(jobs, parallel=4)
 
